@@ -1493,6 +1493,7 @@ sc_options_parse (int package_id, int err_priority, sc_options_t * opt,
 
   retval = 0;
   opterr = 0;
+  optind = 0;                   /* reset scan state: getopt_long keeps it between calls */
   while (retval == 0) {
     c = getopt_long (argc, argv, optstring, longopts, &option_index);
     if (c == -1) {
